@@ -323,6 +323,7 @@ type Contract struct {
 	RndHints []*Clause
 	Hints    []*Clause
 	CallHints []*Clause
+	Variants []*Clause
 	Line     int
 }
 
@@ -460,6 +461,13 @@ func parseContracts(text string) (*ContractFile, error) {
 			cl := &Clause{Kind: "callhint", Label: w, Text: r, Line: ln + 1}
 			lastClause = cl
 			cur.CallHints = append(cur.CallHints, cl)
+		case "variant":
+			// variant <prop> <expr>: the function is verified once more under the extra
+			// assumption; the safety obligations and the clauses labelled <prop> of that run belong to <prop>
+			w, r := splitWord(rest)
+			cl := &Clause{Kind: "variant", Label: w, Text: r, Line: ln + 1}
+			lastClause = cl
+			cur.Variants = append(cur.Variants, cl)
 		case "hint":
 			cl := &Clause{Kind: "hint", Text: rest, Line: ln + 1}
 			lastClause = cl
